@@ -35,7 +35,14 @@ Definition E_DIALFAIL : N := 3.
 
 Inductive uev := UValidate (p : peer) | UOpened (p : peer) (d : dir) | UClosed (p : peer) | UFail (p : peer) (e : N)
                | UNotif (p : peer).   (* NotificationReceived *)
-Inductive call := CDial (p : peer) | COpen (p : peer) (s : sid) | CForce (p : peer).
+Inductive call := CDial (p : peer) | COpen (p : peer) (s : sid) | CForce (p : peer)
+                | CRet (p : peer) (code : N)          (* what a send call returned to the user *)
+                | CWire (p : peer) (k : N) (m : N).   (* frame m written on the outbound substream of task k *)
+
+(* return codes of send_sync_notification / send_async_notification *)
+Definition R_OK : N := 0.
+Definition R_NOCONN : N := 1.      (* NotificationError::NoConnection *)
+Definition R_NOPEER : N := 3.      (* Error::PeerDoesntExist *)
 
 (* A Connection task at an event boundary: running, or inside close_connection waiting for a
    substream close that does not complete (t_gated); t_closing = Some notify once it has decided
@@ -59,7 +66,9 @@ Record st := mkSt {
   ntask : N;
   lastt : peer -> option N;            (* most recent Connection task of the peer *)
   timers : list peer;                  (* armed 5 s negotiation timers, oldest first *)
-  narm : N                             (* timers armed so far *)
+  narm : N;                            (* timers armed so far *)
+  hsink : peer -> option N;            (* NotificationHandle.peers: the sink (task) stored for the peer *)
+  usink : peer -> option N             (* a NotificationSink clone the user keeps for the peer *)
 }.
 
 Definition upd {A} (f : peer -> A) (p : peer) (v : A) : peer -> A :=
@@ -67,40 +76,46 @@ Definition upd {A} (f : peer -> A) (p : peer) (v : A) : peer -> A :=
 
 Definition init : st :=
   mkSt (fun _ => None) [] (fun _ => false) (fun _ => false) (fun _ => false) (fun _ => false)
-       (fun _ => false) (fun _ => false) 0 [] [] 0 (fun _ => None) [] 0.
+       (fun _ => false) (fun _ => false) 0 [] [] 0 (fun _ => None) [] 0 (fun _ => None) (fun _ => None).
 
 (* ---- field setters ---- *)
 Definition set_ps (s : st) (p : peer) (v : option pstate) : st :=
-  mkSt (upd (ps s) p v) (pend s) (hsI s) (hsO s) (hopen s) (hval s) (conn s) (dead s) (nsid s) (spend s) (tasks s) (ntask s) (lastt s) (timers s) (narm s).
+  mkSt (upd (ps s) p v) (pend s) (hsI s) (hsO s) (hopen s) (hval s) (conn s) (dead s) (nsid s) (spend s) (tasks s) (ntask s) (lastt s) (timers s) (narm s) (hsink s) (usink s).
 Definition set_pend (s : st) (l : list (sid * peer)) : st :=
-  mkSt (ps s) l (hsI s) (hsO s) (hopen s) (hval s) (conn s) (dead s) (nsid s) (spend s) (tasks s) (ntask s) (lastt s) (timers s) (narm s).
+  mkSt (ps s) l (hsI s) (hsO s) (hopen s) (hval s) (conn s) (dead s) (nsid s) (spend s) (tasks s) (ntask s) (lastt s) (timers s) (narm s) (hsink s) (usink s).
 Definition set_hsI (s : st) (p : peer) (b : bool) : st :=
-  mkSt (ps s) (pend s) (upd (hsI s) p b) (hsO s) (hopen s) (hval s) (conn s) (dead s) (nsid s) (spend s) (tasks s) (ntask s) (lastt s) (timers s) (narm s).
+  mkSt (ps s) (pend s) (upd (hsI s) p b) (hsO s) (hopen s) (hval s) (conn s) (dead s) (nsid s) (spend s) (tasks s) (ntask s) (lastt s) (timers s) (narm s) (hsink s) (usink s).
 Definition set_hsO (s : st) (p : peer) (b : bool) : st :=
-  mkSt (ps s) (pend s) (hsI s) (upd (hsO s) p b) (hopen s) (hval s) (conn s) (dead s) (nsid s) (spend s) (tasks s) (ntask s) (lastt s) (timers s) (narm s).
+  mkSt (ps s) (pend s) (hsI s) (upd (hsO s) p b) (hopen s) (hval s) (conn s) (dead s) (nsid s) (spend s) (tasks s) (ntask s) (lastt s) (timers s) (narm s) (hsink s) (usink s).
 Definition set_hopen (s : st) (p : peer) (b : bool) : st :=
-  mkSt (ps s) (pend s) (hsI s) (hsO s) (upd (hopen s) p b) (hval s) (conn s) (dead s) (nsid s) (spend s) (tasks s) (ntask s) (lastt s) (timers s) (narm s).
+  mkSt (ps s) (pend s) (hsI s) (hsO s) (upd (hopen s) p b) (hval s) (conn s) (dead s) (nsid s) (spend s) (tasks s) (ntask s) (lastt s) (timers s) (narm s) (hsink s) (usink s).
 Definition set_hval (s : st) (p : peer) (b : bool) : st :=
-  mkSt (ps s) (pend s) (hsI s) (hsO s) (hopen s) (upd (hval s) p b) (conn s) (dead s) (nsid s) (spend s) (tasks s) (ntask s) (lastt s) (timers s) (narm s).
+  mkSt (ps s) (pend s) (hsI s) (hsO s) (hopen s) (upd (hval s) p b) (conn s) (dead s) (nsid s) (spend s) (tasks s) (ntask s) (lastt s) (timers s) (narm s) (hsink s) (usink s).
 Definition set_conn (s : st) (p : peer) (b : bool) : st :=
-  mkSt (ps s) (pend s) (hsI s) (hsO s) (hopen s) (hval s) (upd (conn s) p b) (dead s) (nsid s) (spend s) (tasks s) (ntask s) (lastt s) (timers s) (narm s).
+  mkSt (ps s) (pend s) (hsI s) (hsO s) (hopen s) (hval s) (upd (conn s) p b) (dead s) (nsid s) (spend s) (tasks s) (ntask s) (lastt s) (timers s) (narm s) (hsink s) (usink s).
 Definition set_dead (s : st) (p : peer) (b : bool) : st :=
-  mkSt (ps s) (pend s) (hsI s) (hsO s) (hopen s) (hval s) (conn s) (upd (dead s) p b) (nsid s) (spend s) (tasks s) (ntask s) (lastt s) (timers s) (narm s).
+  mkSt (ps s) (pend s) (hsI s) (hsO s) (hopen s) (hval s) (conn s) (upd (dead s) p b) (nsid s) (spend s) (tasks s) (ntask s) (lastt s) (timers s) (narm s) (hsink s) (usink s).
 Definition set_nsid (s : st) (n : N) : st :=
-  mkSt (ps s) (pend s) (hsI s) (hsO s) (hopen s) (hval s) (conn s) (dead s) n (spend s) (tasks s) (ntask s) (lastt s) (timers s) (narm s).
+  mkSt (ps s) (pend s) (hsI s) (hsO s) (hopen s) (hval s) (conn s) (dead s) n (spend s) (tasks s) (ntask s) (lastt s) (timers s) (narm s) (hsink s) (usink s).
 Definition set_spend (s : st) (l : list (sid * peer)) : st :=
-  mkSt (ps s) (pend s) (hsI s) (hsO s) (hopen s) (hval s) (conn s) (dead s) (nsid s) l (tasks s) (ntask s) (lastt s) (timers s) (narm s).
+  mkSt (ps s) (pend s) (hsI s) (hsO s) (hopen s) (hval s) (conn s) (dead s) (nsid s) l (tasks s) (ntask s) (lastt s) (timers s) (narm s) (hsink s) (usink s).
 Definition set_tasks (s : st) (l : list task) : st :=
-  mkSt (ps s) (pend s) (hsI s) (hsO s) (hopen s) (hval s) (conn s) (dead s) (nsid s) (spend s) l (ntask s) (lastt s) (timers s) (narm s).
+  mkSt (ps s) (pend s) (hsI s) (hsO s) (hopen s) (hval s) (conn s) (dead s) (nsid s) (spend s) l (ntask s) (lastt s) (timers s) (narm s) (hsink s) (usink s).
+Definition set_hsink (s : st) (p : peer) (v : option N) : st :=
+  mkSt (ps s) (pend s) (hsI s) (hsO s) (hopen s) (hval s) (conn s) (dead s) (nsid s) (spend s) (tasks s) (ntask s) (lastt s)
+       (timers s) (narm s) (upd (hsink s) p v) (usink s).
+Definition set_usink (s : st) (p : peer) (v : option N) : st :=
+  mkSt (ps s) (pend s) (hsI s) (hsO s) (hopen s) (hval s) (conn s) (dead s) (nsid s) (spend s) (tasks s) (ntask s) (lastt s)
+       (timers s) (narm s) (hsink s) (upd (usink s) p v).
 Definition set_timers (s : st) (l : list peer) : st :=
-  mkSt (ps s) (pend s) (hsI s) (hsO s) (hopen s) (hval s) (conn s) (dead s) (nsid s) (spend s) (tasks s) (ntask s) (lastt s) l (narm s).
+  mkSt (ps s) (pend s) (hsI s) (hsO s) (hopen s) (hval s) (conn s) (dead s) (nsid s) (spend s) (tasks s) (ntask s) (lastt s) l (narm s) (hsink s) (usink s).
 (* on_handshake_event pushes a 5 s timer for the peer whenever it returns without the stream open *)
 Definition arm (s : st) (p : peer) : st :=
   mkSt (ps s) (pend s) (hsI s) (hsO s) (hopen s) (hval s) (conn s) (dead s) (nsid s) (spend s) (tasks s) (ntask s) (lastt s)
-       (timers s ++ [p]) (narm s + 1).
+       (timers s ++ [p]) (narm s + 1) (hsink s) (usink s).
 Definition spawn_task (s : st) (p : peer) : st :=
   mkSt (ps s) (pend s) (hsI s) (hsO s) (hopen s) (hval s) (conn s) (dead s) (nsid s) (spend s)
-       (tasks s ++ [mkTask (ntask s) p None false]) (ntask s + 1) (upd (lastt s) p (Some (ntask s))) (timers s) (narm s).
+       (tasks s ++ [mkTask (ntask s) p None false]) (ntask s + 1) (upd (lastt s) p (Some (ntask s))) (timers s) (narm s) (hsink s) (usink s).
 
 (* ---- pending_outbound (HashMap<SubstreamId, PeerId>) ---- *)
 Definition pend_remove (x : sid) (l : list (sid * peer)) : list (sid * peer) :=
@@ -393,13 +408,19 @@ Inductive op :=
 | CmdForce (p : peer) | TaskDie (p : peer) (gated : bool) | Release (p : peer) | KillChan (p : peer)
 | Gate (p : peer)
 | Notify (p : peer)                      (* the remote sends a notification on the open stream *)
-| NotifyDie (p : peer) (gated : bool).   (* ... and then closes the stream *)
+| NotifyDie (p : peer) (gated : bool)    (* ... and then closes the stream *)
+| GrabSink (p : peer)                    (* the user keeps a clone of handle.notification_sink(p) *)
+| SendSync (p : peer) (m : N)            (* handle.send_sync_notification(p, m) *)
+| SendAsync (p : peer) (m : N)           (* handle.send_async_notification(p, m) *)
+| SinkSync (p : peer) (m : N)            (* the kept clone: sink.send_sync_notification(m) *)
+| SinkAsync (p : peer) (m : N).          (* sink.send_async_notification(m) *)
 
 Definition op_peer (o : op) : peer :=
   match o with
   | Established p | ConnClosed p | SubIn p | SubOut p | OpenFail p | DialFail p | HsIn p _
   | HsOut p _ | Validate p _ | Timer p | CmdOpen p | CmdClose p | CmdForce p | TaskDie p _
-  | Release p | KillChan p | Gate p | Notify p | NotifyDie p _ => p
+  | Release p | KillChan p | Gate p | Notify p | NotifyDie p _ | GrabSink p | SendSync p _ | SendAsync p _
+  | SinkSync p _ | SinkAsync p _ => p
   end.
 
 (* oldest unanswered open_substream request of the peer *)
@@ -447,6 +468,24 @@ Definition task_die_op (s : st) (p : peer) (g : bool) : res :=
       | None => ok s
       end.
 
+(* A notification handed to the sink of task k: accepted while the task's receivers exist (the task is
+   alive, running or closing); written to the task's outbound substream only if the task is running;
+   an error if the task is gone. Channel capacities are C12's subject and not modelled here. *)
+Definition sink_send (s : st) (p : peer) (k : N) (m : N) (async : bool) : list call :=
+  match find_task k (tasks s) with
+  | Some t =>
+      CRet p R_OK :: match t_closing t with None => [CWire (t_peer t) k m] | Some _ => [] end
+  | None => [CRet p (if async then R_NOPEER else R_NOCONN)]
+  end.
+
+(* through the handle: the `peers` map is the gate; a synchronous send to a peer that is not in the
+   map returns Ok and does nothing, an asynchronous one returns PeerDoesntExist *)
+Definition handle_send (s : st) (p : peer) (m : N) (async : bool) : list call :=
+  match hsink s p with
+  | Some k => sink_send s p k m async
+  | None => [CRet p (if async then R_NOPEER else R_OK)]
+  end.
+
 Definition main_handler (c : cfg) (s : st) (o : op) : res :=
   match o with
   | Established p =>
@@ -489,6 +528,15 @@ Definition main_handler (c : cfg) (s : st) (o : op) : res :=
       let '(l', ev, n) := finish_tasks p l in
       Some (run_shutdowns (set_tasks s l') p n, ev, [])
   | KillChan p => if conn s p then ok (set_dead s p true) else ok s
+  | GrabSink p =>
+      match usink s p, hsink s p with
+      | None, Some k => ok (set_usink s p (Some k))
+      | _, _ => ok s
+      end
+  | SendSync p m => Some (s, [], handle_send s p m false)
+  | SendAsync p m => Some (s, [], handle_send s p m true)
+  | SinkSync p m => Some (s, [], match usink s p with Some k => sink_send s p k m false | None => [] end)
+  | SinkAsync p m => Some (s, [], match usink s p with Some k => sink_send s p k m true | None => [] end)
   end.
 
 (* the user drains the event stream: the handle's gate and pending validations follow the events.
@@ -507,16 +555,17 @@ Fixpoint drain (s : st) (evs : list uev) : st * list peer * list N :=
   | [] => (s, [], [])
   | e :: t =>
       match e with
-      | UOpened p _ => drain (set_hopen s p true) t
+      | UOpened p _ => drain (set_hsink (set_hopen s p true) p (lastt s p)) t
       | UClosed p =>
           let killed :=
-            if hopen s p then
-              match lastt s p with
-              | Some k => if running s k then [k] else []
-              | None => []
-              end
-            else [] in
-          let '(s1, l, ks) := drain (set_hopen s p false) t in (s1, l, killed ++ ks)
+            match hsink s p with
+            | Some k =>
+                (* the handle drops its sink; the task notices only if no clone is left *)
+                if running s k && negb (match usink s p with Some k' => k' =? k | None => false end)
+                then [k] else []
+            | None => []
+            end in
+          let '(s1, l, ks) := drain (set_hsink (set_hopen s p false) p None) t in (s1, l, killed ++ ks)
       | UValidate p =>
           if hval s p then let '(s1, l, ks) := drain s t in (s1, p :: l, ks)
           else drain (set_hval s p true) t
